@@ -33,7 +33,7 @@ pub(crate) mod __verif_k {
                     }
                     let mut j = 0;
                     while j < 2 {
-                        if j < PRE_NFRAMES { self.frames.push(Frame::new(PRE_FRAMES[j].0, PRE_FRAMES[j].1)); }
+                        if j < PRE_NFRAMES { self.frames.push(mk_frame(PRE_FRAMES[j].0, PRE_FRAMES[j].1)); }
                         j += 1;
                     }
                     self.bp = PRE_BP;
@@ -95,6 +95,14 @@ pub(crate) mod __verif_k {
     }
 
     const H: usize = 4; // stack window of the contracts
+
+    /// a call frame with the given return address and base pointer; written so that it keeps compiling if the WIDTH of the
+    /// fields changes (a narrowed field then shows as a failed contract, not as an overlay that does not build)
+    fn mk_frame(ip: usize, bp: u16) -> Frame {
+        let mut f = Frame::new(0 as _, bp);
+        f.ip = ip as _;
+        f
+    }
 
     /// a fresh VM whose stack holds `h` arbitrary immediates (h concrete per harness, contents symbolic)
     fn mk_vm(h: usize) -> (VM, [Object; H], usize) {
@@ -222,6 +230,30 @@ pub(crate) mod __verif_k {
         std::mem::forget(vm);
     }}
 
+    // C02/C12: a call remembers where the caller has to resume, for ANY position in the code (jump operands are 16-bit,
+    // code positions are not: straight-line code may run past 64 KiB), and the callee starts at the given entry
+    #[kani::proof]
+    fn k_frame_roundtrip_any_position() {
+        let mut vm = VM::new();
+        let resume: usize = kani::any();
+        let entry: u32 = kani::any();
+        let base: u16 = kani::any();
+        kani::assume(base <= 2);
+        vm.stack.push(Object::null());
+        vm.stack.push(Object::null());
+        vm.ip = resume;
+        vm.bp = 0;
+        vm.pushframe(entry, base);
+        assert!(vm.ip == entry as usize && vm.bp == base && vm.frames.len() == 2);
+        vm.ip = kani::any();
+        vm.popframe();
+        assert!(vm.ip == resume);
+        assert!(vm.bp == 0 && vm.frames.len() == 1 && vm.stack.len() == base as usize);
+        kani::cover!(resume > 65535);
+        kani::cover!(entry > 65535);
+        std::mem::forget(vm);
+    }
+
     // C03/C04: the run's result is taken out of the collector exactly once, at Halt, and it is the value returned;
     // an error exit hands nothing over (everything stays with the machine's collector and is released with it)
     contract! { fn k_halt_hands_over_result() {
@@ -274,7 +306,7 @@ pub(crate) mod __verif_k {
         let mut vm = VM::new();
         vm.stack.push(arb_imm().0);
         vm.stack.push(arb_imm().0);
-        vm.frames.push(Frame::new(kani::any::<u16>() as usize, kani::any()));
+        vm.frames.push(mk_frame(kani::any::<u16>() as usize, kani::any()));
         vm.ip = kani::any();
         vm.bp = kani::any();
         vm.frames[0].ip = kani::any();
@@ -287,7 +319,7 @@ pub(crate) mod __verif_k {
         assert!(vm.ip == 0 && vm.bp == 0);
         // leftovers of an earlier (failed) run are gone: empty operand stack, a single frame
         assert!(vm.stack.len() == 0);
-        assert!(vm.frames.len() == 1 && vm.frames[0].ip == 0 && vm.frames[0].base_pointer == 0);
+        assert!(vm.frames.len() == 1 && vm.frames[0].ip as usize == 0 && vm.frames[0].base_pointer == 0);
         // globals are kept
         assert!(vm.globals.len() == 1 && same(vm.globals[0], g));
         kani::cover!(g.tag() == Type::Int);
@@ -773,8 +805,8 @@ pub(crate) mod __verif_k {
             let [fip, nl] = f.as_function();
             assert!(r.is_ok());
             assert!(vm.frames.len() == 2);
-            assert!(vm.frames[0].ip == ip0); // caller resumes after the operand
-            assert!(vm.frames[1].ip == fip as usize && vm.frames[1].base_pointer as usize == base);
+            assert!(vm.frames[0].ip as usize == ip0); // caller resumes after the operand
+            assert!(vm.frames[1].ip as usize == fip as usize && vm.frames[1].base_pointer as usize == base);
             assert!(vm.ip == fip as usize && vm.bp as usize == base);
             assert!(vm.stack.len() == base + nl as usize);
             // arguments are the first locals, the remaining locals start as null, everything below is untouched
@@ -799,11 +831,11 @@ pub(crate) mod __verif_k {
                 // an activation: caller frame (frames[0], reset by the prologue) and callee frame with symbolic base
                 let cbp: u16 = kani::any();
                 kani::assume((cbp as usize) <= h - if $with_value { 1 } else { 0 });
-                let mid = if kani::any() { Some(Frame::new(kani::any::<u16>() as usize, kani::any())) } else { None };
+                let mid = if kani::any() { Some(mk_frame(kani::any::<u16>() as usize, kani::any())) } else { None };
                 unsafe {
                     match mid {
                         // deeper nesting: [frame0, mid, callee]; returning from callee resumes `mid`
-                        Some(m) => { PRE_FRAMES[0] = (m.ip, m.base_pointer); PRE_FRAMES[1] = (7, cbp); PRE_NFRAMES = 2; }
+                        Some(m) => { PRE_FRAMES[0] = (m.ip as usize, m.base_pointer); PRE_FRAMES[1] = (7, cbp); PRE_NFRAMES = 2; }
                         None => { PRE_FRAMES[0] = (7, cbp); PRE_NFRAMES = 1; }
                     }
                 }
@@ -816,7 +848,7 @@ pub(crate) mod __verif_k {
                 match mid {
                     Some(m) => {
                         assert!(vm.frames.len() == 2);
-                        assert!(vm.ip == m.ip && vm.bp == m.base_pointer);
+                        assert!(vm.ip == m.ip as usize && vm.bp == m.base_pointer);
                     }
                     None => {
                         assert!(vm.frames.len() == 1);
